@@ -12,14 +12,15 @@
 //! Route-level keys come in two kinds and the monitor tells them apart by measurement: a key is *route-local* when the
 //! route-level entry point alone (`clear + goal.accept_route_state` of a copy of that single route) already yields the
 //! value the full recompute yields; otherwise it is *solution-dependent* (today: shared reload resource availability,
-//! which the route-level entry point only sets to a "blocked" sentinel, and the group tag, which only the solution-level
-//! entry point writes). After an insertion route-local keys are compared with the single-route recompute, solution-
+//! which the route-level entry point only sets to a "blocked" sentinel; until fix 7a2d83a also the group tag, which only
+//! the solution-level entry point wrote). After an insertion route-local keys are compared with the single-route recompute, solution-
 //! dependent keys with the full recompute and only if every other route is fresh in its route-local keys (mid-operator
 //! other routes may legitimately be stale, see DESIGN.md) and the recompute did not touch any tour.
 //!
 //! Signatures: `C05|<handover|insertion>|key=<last segment of the key type>|<cached-but-not-recomputed|
-//! recomputed-but-not-cached|value-differs>[|job-accounting-broken]`, `C05|handover|fitness-differs`,
-//! `C05|handover|total-order-not-equal[|fitness-within-tolerance]`, `C05|panic|<file>` (operator step / real solve),
+//! recomputed-but-not-cached|value-differs>[|job-accounting-broken]`, `C05|handover|fitness-differs|with=solution:<keys>`,
+//! `C05|handover|total-order-not-equal[|fitness-within-tolerance]|with=solution:<keys>` (`<keys>` = the solution-level keys
+//! that differ at the same hand-over, `none` if there is none), `C05|panic|<file>` (operator step / real solve),
 //! `C05|<point>|panic-in-recompute|<file>`. The suffix `|job-accounting-broken` marks mismatches seen while (or, inside
 //! a history, after) a solution had a job listed twice / in two places / missing: that is C02/C04's subject and makes
 //! features treat the solution as partial, so its consequences are kept apart from defects of the caches themselves.
@@ -47,7 +48,7 @@ use vrp_core::solver::{GreedyPopulation, RefinementContext, create_default_heuri
 /// Route-level keys known to be solution-dependent (see module doc). Only used when the full recompute is not available
 /// or has changed the tour itself; otherwise the classification is measured. Anything else that is measured as
 /// solution-dependent is listed in the table `route_keys_measured_solution_dependent`.
-const SOL_DEP_KEYS: &[&str] = &["SharedResourceStateKey", "CurrentGroupsTourStateKey"];
+const SOL_DEP_KEYS: &[&str] = &["SharedResourceStateKey"];
 
 const SCHEDULE_KEY: &str = "schedule(arrival,departure)";
 
@@ -540,6 +541,10 @@ fn check_handover(info: &Arc<CaseInfo>, kind: &str, s: &InsertionContext) {
         for k in cached_sol.keys().filter(|k| !rec.sol.contains_key(*k)) {
             items.push(("solution_keys_not_written_by_recompute", k.clone()));
         }
+        // objective values are derived from the solution-level caches: a fitness difference is attributed to the
+        // solution-level keys that differ at this very hand-over (`|with=none` if no such key differs)
+        let mut differing_solution_keys: Vec<String> = Vec::new();
+        let mut literally_differing_solution_keys: Vec<String> = Vec::new();
         for (k, fv) in rec.sol.iter() {
             let cv = cached_sol.get(k);
             items.push(("solution_keys_seen", k.clone()));
@@ -550,7 +555,11 @@ fn check_handover(info: &Arc<CaseInfo>, kind: &str, s: &InsertionContext) {
             compared_any = true;
             items.push(("handover_solution_keys", k.clone()));
             items.push(("handover_key_by_kind", format!("{kind}|solution:{k}")));
+            if cv != Some(fv) {
+                literally_differing_solution_keys.push(k.clone());
+            }
             if let Some(diff) = cmp_val(cv, Some(fv)) {
+                differing_solution_keys.push(k.clone());
                 let sig = format!("C05|handover|key=solution:{k}|{}{acct}", diff.label());
                 let what = format!(
                     "after {kind}: solution-level key {k} is cached as {} but recomputation from the bare tours gives {}",
@@ -574,6 +583,10 @@ fn check_handover(info: &Arc<CaseInfo>, kind: &str, s: &InsertionContext) {
         });
         match verdict {
             Ok((fa, fb, o1, o2)) => {
+                let join = |keys: &Vec<String>| if keys.is_empty() { "none".to_string() } else { keys.join("+") };
+                let with = join(&differing_solution_keys);
+                // for the "equal within tolerance but not bit-equal" case: keys whose rendering differs at all
+                let with_literal = join(&literally_differing_solution_keys);
                 items.push(("handover_fitness_vectors", format!("len={}", fa.len())));
                 if info.prag.has("balance") {
                     items.push(("handover_fitness_vectors", "with a balance objective".to_string()));
@@ -584,13 +597,17 @@ fn check_handover(info: &Arc<CaseInfo>, kind: &str, s: &InsertionContext) {
                 let fit_ok = fa.len() == fb.len() && fa.iter().zip(fb.iter()).all(|(a, b)| approx(*a, *b));
                 if !fit_ok {
                     let what = format!("after {kind}: goal.fitness(s) = {fa:?} but goal.fitness(recompute(s)) = {fb:?} (identical tours)");
-                    m.violation_at(&format!("C05|handover|fitness-differs{acct}"), kind, &what, || {
+                    m.violation_at(&format!("C05|handover|fitness-differs|with=solution:{with}{acct}"), kind, &what, || {
                         info.artefact(json!({"point": "handover", "handover_kind": kind, "fitness_cached": format!("{fa:?}"), "fitness_recomputed": format!("{fb:?}"),
                             "tours": s.solution.routes.iter().map(tour_text).collect::<Vec<_>>(), "lists": lists_json(&s.solution, &s.problem)}))
                     });
                 }
                 if o1 != Ordering::Equal || o2 != Ordering::Equal {
-                    let sig = format!("C05|handover|total-order-not-equal{}{acct}", if fit_ok { "|fitness-within-tolerance" } else { "" });
+                    let sig = if fit_ok {
+                        format!("C05|handover|total-order-not-equal|fitness-within-tolerance|with=solution:{with_literal}{acct}")
+                    } else {
+                        format!("C05|handover|total-order-not-equal|with=solution:{with}{acct}")
+                    };
                     let what = format!("after {kind}: total_order(s, recompute(s)) = {o1:?}, total_order(recompute(s), s) = {o2:?} for identical tours; fitness {fa:?} vs {fb:?}");
                     m.violation_at(&sig, kind, &what, || {
                         info.artefact(json!({"point": "handover", "handover_kind": kind, "fitness_cached": format!("{fa:?}"), "fitness_recomputed": format!("{fb:?}"),
@@ -771,6 +788,12 @@ fn check_insertion(ctx: &InsertionContext, route_index: usize, job: &Job, info: 
             continue;
         }
         let listed = SOL_DEP_KEYS.contains(&k.as_str());
+        if listed && info.is_none() {
+            // a problem derived by the solver itself (InfeasibleSearch: stochastically relaxed constraints, e.g. an overdrawn
+            // shared resource "-1"): whether the solution counts as partial may differ between original and recompute
+            m.run.inconclusive("insertion: solution-dependent key not judged on a derived problem (relaxed constraints)");
+            continue;
+        }
         // classification: measured when the full recompute kept the tour, otherwise from the list
         let local = match dfm {
             Some(_) => cmp_val(v1, vf).is_none(),
